@@ -2,7 +2,8 @@
 
 Domain : generated Colang 2 programs (vf/co2.py) extended with variables holding sets, regex objects, nested containers,
          dicts with int/str keys (generated dicts with keys of mixed kinds at any position, in every placement) and references to
-         flows/actions/events (also references to flows that ended long ago, read through later); helper flows activated by several flows that end / deactivate in drawn ways; histories H = H1 . cut . H2 with the cut at every
+         flows/actions/events (also references to flows that ended long ago, read through later), non-finite floats (computed or received, in every placement);
+         and-groups of flows in open when / await scopes whose members end at different times; helper flows activated by several flows that end / deactivate in drawn ways; histories H = H1 . cut . H2 with the cut at every
          position (enumerated per drawn case up to a bound) and cut in {save/restore, age > 5 s, both}.
 Oracle : differential. Two executions from scratch with identical tie-break choices: A feeds H1.H2 live; B feeds H1, applies
          json_to_state(state_to_json(state)) (which must not raise) and/or advances the (fake) clock by 6 s, then feeds H2.
@@ -39,7 +40,16 @@ RULE = (
     "or a copy of the reference in a second variable, waits for 1-2 drawn events and then reads 1-3 drawn members (x / res / loc) in a send, in the script of a started action or in an if condition; optionally one more "
     "drawn event and a second read of all three members; parameter value from str / int / 0 / list / dict, positional or named call; 2 of 3 of these cases in an ageing mode. Labels cut-with-reference-to-ended-flow = at a cut a "
     "variable of a running flow holds (directly or as the flow of a kept event) a flow instance that has ended, ended-flow-read-through-reference-after-cut = and the output of such a read appears after that cut. "
-    "Enumerated: every rich use x 2 positions x every cut x 4 modes; flow references (5 ways of obtaining the reference x 4 ways the referenced flow ends x 1-2 waits before the read, member / place of the read / parameter value "
+    "(d) nonfinite (about 1 in 6; labels nonfinite-*) - a NON-FINITE FLOAT (inf / -inf / nan) that is computed in a flow (`1e308 * 10.0`, `0.0 - 1e308 * 10.0`, inf - inf) or arrives as the parameter of a received event "
+    "(history items carry it as the plain-data stand-in {__nf__: name}; for such a case about 1 in 4 events of the history carry one, the drawn source event always) and is kept across the cuts in a drawn placement: flow variable, inside a list / a nested dict, "
+    "global, argument of a started action, argument of a started flow, or only the reference to the received event; after 1-2 drawn events it is read through that placement in a send, an if condition (> 1e300), a comparison with itself and a product with 0.0, "
+    "or the script of a started action, optionally read again one drawn event later; 2 of 3 of these cases in a saving mode. The runtime leg gives every received event a non-finite parameter in 1 of 2 cases (the runtime keeps received events in the state; "
+    "the watcher flow keeps and sends Ev0's). Outgoing events are compared with non-finite floats replaced by their repr (nan != nan). Label cut-with-non-finite-float-in-variable-or-action = at a cut such a value is reachable from a variable of a running flow or from an action. "
+    "(e) scope (about 1 in 6; labels scope-*) - an OPEN SCOPE THAT OUTLIVES A FLOW STARTED INSIDE IT: an and-group of 2-3 flows c11m<i> (each ends before its first wait / after one / after two occurrences of a drawn event) as a when-case "
+    "(`when a and b` with no / an event / a flow `or when` alternative), as `await a and b`, as `await a and b` inside the branch of a when, or as `await (a and b) or c`, followed by sends and optionally one more wait, placed at a drawn position of a drawn flow; "
+    "3 of 4 of these cases in an ageing mode. Label cut-with-ended-flow-in-open-scope = at a cut an open scope of a running flow lists a flow instance that has ended. "
+    "Enumerated (the two new families first): non-finite floats (3 values x {computed, received} x every placement, kind of read rotating x every cut x save, partly every-age / both / every); open scopes (4 shapes x {no, event, flow alternative} x 3 orders of the members' events "
+    "with other events in between x every cut x {age, every-age}, partly both); runtime-leg histories with non-finite event parameters (3 values x 3 histories x every cut x {save, every-age}); every rich use x 2 positions x every cut x 4 modes; flow references (5 ways of obtaining the reference x 4 ways the referenced flow ends x 1-2 waits before the read, member / place of the read / parameter value "
     "rotating, second read one event later x every cut x two of {age, every-age, both, save}); activated flows restarting (single activator); two-activator programs (activator kinds finish / abort / stopped / tidy squared x "
     "0-2 deactivations by a third flow x helper tails x all orders of the three events x every cut x age, partly every-age); mixed-key dicts (string key first then int / float / bool / None / tuple key, "
     "controls, every placement x all mixed uses x every cut x save, partly every-age); runtime-leg histories; hand-written families (action reference returned from a flow, orphan action watched by arguments, dict variable as action argument matched by a dict literal, alias list) x their histories x every cut x 4 modes; the C09 families."
@@ -53,6 +63,8 @@ ASSUMPTIONS = [
     "dict keys of a generated mixed-key dict are pairwise different under == (no True next to 1, no 2.0 next to 2); the tuple key is produced with list({..}.items())[0] since Colang has no tuple literal",
     "reading a finished flow's members through a reference is documented for return members (docs/colang_2/language_reference/working-with-variables-and-expressions.rst, Flow Variable Access: `await user said something as $ref` ... `$ref.transcript`) and `$ref.flow` of a flow event in defining-flows.rst; parameters and local variables are readable the same way in the implementation - the oracle does not depend on what a read yields, both runs execute the same program",
     "an awaited flow that aborts fails the awaiting flow, so the aborting tail is not combined with `await ... as $ref` (nothing would be read afterwards)",
+    "non-finite floats are legitimate Colang values (Python float arithmetic of the expression evaluator; event parameters are arbitrary JSON-like payloads); what an expression over them yields is not asserted - both runs execute the same program; outputs holding nan are compared through repr since nan != nan",
+    "flow groups in when / await (`when a and b`, `await (a and b) or c`) are documented in docs/colang_2/language_reference/defining-flows.rst (Flow Grouping: `await a and b`, brackets) and flow-control.rst (`when` / `or when` with flows and groups); the oracle does not depend on their semantics",
     "`deactivate X` is the documented statement (docs/colang_2/language_reference/more-on-flows.rst, = send StopFlow(flow_id=X, deactivate=True)); the oracle does not depend on what it does - both runs execute the same program",
 ]
 WALL = {"quick": 170, "thorough": 1500}
@@ -336,6 +348,200 @@ def _flowref_cases():
                     yield {"prog": prog, "family": "flow-reference/" + via + "-" + tail, "flowref": fr, "hist": hist, "uses": [[0, 0, "fref-0"]], "cuts": list(range(1, len(hist))), "mode": mode, "choices": []}
 
 
+# ------------------------------------------------------------------------------------------------
+# NON-FINITE floats (inf, -inf, nan) in the state at a cut: the result of an overflowing float multiplication or the parameter of a
+# received event, kept in a flow variable / inside a container / in a global / as argument of a started action or a started flow / in
+# an event reference, and read after the cut; received events carrying such a value are also the LAST event before a cut
+#   case["nonfinite"] = {"val": "inf"|"-inf"|"nan", "src": "calc"|"event", "sev": event the value arrives with (src event),
+#                        "at": placement, "gap": [events waited for before the read], "how": kind of read, "again": event | None}
+#   history items may carry the value as {"__nf__": "inf"|"-inf"|"nan"} (the case stays plain JSON)
+NF_VALUES = {"inf": float("inf"), "-inf": float("-inf"), "nan": float("nan")}
+NF_CALC = {"inf": ["$nf = 1e308 * 10.0"], "-inf": ["$nf = 0.0 - 1e308 * 10.0"], "nan": ["$nf = 1e308 * 10.0", "$nf = $nf - $nf"]}
+NF_AT = {
+    # placement -> (statements keeping the value, path it is read through)
+    "var": ([], "$nf"),
+    "list": (["$nfc = [1, $nf]"], "$nfc[1]"),
+    "dict": (['$nfc = {"k": $nf, "n": [0.5, $nf]}'], '$nfc["n"][1]'),
+    "global": (["global $nfg", "$nfg = $nf"], "$nfg"),
+    "action-arg": (["start XCustomAction(p=$nf) as $axnf"], "$axnf.start_event_arguments.p"),
+    "flow-arg": (["start c11nfhold $nf as $nfh"], "$nfh.x"),
+    "event-ref": ([], "$nfe.v"),  # (src event only) the reference to the received event is all that keeps the value
+}
+NF_HOW = ["send", "if", "cmp", "action"]
+NFHOLD = {"name": "c11nfhold", "params": ["x"], "loop": None, "body": [{"k": "raw", "text": "match Ev3()"}, {"k": "raw", "text": "send OutNFH(v=$x)"}, {"k": "raw", "text": "match Never()"}]}
+
+
+def _nf_read(how, path, n):
+    if how == "if":
+        return f"if {path} > 1e300\n  send OutNFbig(n={n})\nelse\n  send OutNFsmall(n={n})"
+    if how == "cmp":
+        return f"$nfq = {path} == {path}\nsend OutNFeq(n={n}, q=$nfq, w={path} * 0.0)"
+    if how == "action":
+        return '$nfr = %s\nstart UtteranceBotAction(script="nf%d {$nfr}")' % (path, n)
+    return f"send OutNF(n={n}, v={path})"
+
+
+def _nf_tables(nf):
+    """(extra flows, {use name: statement text}) of a non-finite-float overlay."""
+    at = nf["at"] if nf["src"] == "event" or nf["at"] != "event-ref" else "var"
+    lines, path = NF_AT[at]
+    src = [f"match Ev{nf['sev']}() as $nfe"] + ([] if at == "event-ref" else ["$nf = $nfe.v"]) if nf["src"] == "event" else NF_CALC[nf["val"]]
+    text = src + lines + [f"match Ev{g}()" for g in nf["gap"]] + [_nf_read(nf["how"], path, 1)]
+    if nf.get("again") is not None:
+        text += [f"match Ev{nf['again']}()", _nf_read("send", path, 2)]
+    return ([dict(NFHOLD)] if at == "flow-arg" else []), {"nf-0": "\n".join(text)}
+
+
+def _nf_item(item):
+    """History item with the plain-data stand-in of a non-finite float replaced by the float."""
+    if len(item) > 2 and isinstance(item[2], dict) and "__nf__" in item[2]:
+        return [item[0], item[1], NF_VALUES[item[2]["__nf__"]]] + list(item[3:])
+    return item
+
+
+def _nf_canon(x):
+    """nan != nan: non-finite floats in the outgoing events are compared through their repr."""
+    if isinstance(x, float) and (x != x or x in (float("inf"), float("-inf"))):
+        return f"<float {x!r}>"
+    if isinstance(x, (list, tuple)):
+        return type(x)(_nf_canon(i) for i in x)
+    if isinstance(x, dict):
+        return {k: _nf_canon(v) for k, v in x.items()}
+    return x
+
+
+def _nf_inside(v, depth=0):
+    """A non-finite float is reachable from this value (containers, arguments of kept events / actions / flows)."""
+    if isinstance(v, float):
+        return v != v or v in (float("inf"), float("-inf"))
+    if depth > 4:
+        return False
+    if isinstance(v, dict):
+        return any(_nf_inside(x, depth + 1) for x in v.values())
+    if isinstance(v, (list, tuple, set, frozenset)):
+        return any(_nf_inside(x, depth + 1) for x in v)
+    for attr in ("arguments", "start_event_arguments"):
+        a = getattr(v, attr, None)
+        if isinstance(a, dict) and any(_nf_inside(x, depth + 1) for x in a.values()):
+            return True
+    return False
+
+
+@st.composite
+def _nonfinite(draw, nflows, hist):
+    """Overlay + the uses that place it + the history with the value carried by some events: (nonfinite, uses, hist)."""
+    ev = st.integers(0, co2.EVENTS - 1)
+    main = nflows - 1
+    src = draw(st.sampled_from(["calc", "calc", "event"]))
+    nf = {
+        "val": draw(st.sampled_from(["inf", "inf", "-inf", "nan", "nan"])),
+        "src": src,
+        "sev": draw(ev),
+        "at": draw(st.sampled_from(sorted(set(NF_AT) - ({"event-ref"} if src == "calc" else set())))),
+        "gap": draw(st.lists(ev, min_size=1, max_size=2)),
+        "how": draw(st.sampled_from(["send", "send"] + NF_HOW)),
+        "again": draw(st.sampled_from([None, None, 0, 1, 2, 3])),
+    }
+    tok = {"__nf__": nf["val"]}
+    out = []
+    for item in hist:
+        item = list(item)
+        if item[0] in ("ev", "hit") and ((src == "event" and item[0] == "ev" and item[1] == nf["sev"]) or draw(st.integers(0, 3)) == 0):
+            item[2] = dict(tok) if draw(st.integers(0, 4)) else {"__nf__": draw(st.sampled_from(sorted(NF_VALUES)))}
+        out.append(item)
+    if src == "event" and not any(i[0] == "ev" and i[1] == nf["sev"] for i in out[:4]):
+        out.insert(draw(st.integers(0, min(2, len(out) - 1))), ["ev", nf["sev"], dict(tok)])
+    uses = [[draw(st.sampled_from([main, main, main] + list(range(nflows)))), draw(st.sampled_from([0, 0, 1, 2, 3, 5, 8])), "nf-0"]]
+    return nf, uses, out
+
+
+def _nonfinite_cases():
+    """A non-finite float kept across a cut: every value x {computed, received} x every placement (kind of read rotating) x every cut x
+    save (every third also x every-age / both); the received events carrying the value are also the last event before a cut."""
+    n = 0
+    for val in ("inf", "-inf", "nan"):
+        for src in ("calc", "event"):
+            for at in sorted(NF_AT):
+                if src == "calc" and at == "event-ref":
+                    continue
+                nf = {"val": val, "src": src, "sev": 3, "at": at, "gap": [0], "how": NF_HOW[n % len(NF_HOW)], "again": 1}
+                tok = {"__nf__": val}
+                hist = [["ev", 3, dict(tok)], ["ev", 0, None], ["ev", 1, dict(tok) if n % 2 else None], ["ev", 3, None], ["ev", 2, None]]
+                prog = {"flows": [_raw_flow("main", ["match Never()"])]}
+                for mode in ("save", ("every-age", "both", "every")[n % 3]) if n % 3 == 0 or at == "var" else ("save",):
+                    yield {"prog": prog, "family": "non-finite/" + src + "-" + at, "nonfinite": nf, "hist": hist, "uses": [[0, 0, "nf-0"]], "cuts": list(range(1, len(hist))), "mode": mode, "choices": []}
+                n += 1
+
+
+# ------------------------------------------------------------------------------------------------
+# an OPEN SCOPE that outlives a flow started inside it: an and-group of flows in a when-case / in an await (also inside a when-branch or
+# next to an or-alternative); one member finishes, idle time passes (its instance is discarded, the scope still lists it), then the
+# other member finishes / an alternative wins and the scope is left
+#   case["scope"] = {"shape": one of SC_SHAPES, "members": [{"ev": e, "waits": 0|1|2}, ...] (flows c11m<i>), "alt": None | ["ev", e] | ["flow", e]
+#                    (the or-when alternative: an event, or the flow c11malt waiting for Ev<e>), "pre": event of the enclosing when-branch,
+#                    "after": event waited for after the scope | None}
+SC_SHAPES = ["when-and", "await-and", "when-await-and", "await-or-and"]
+
+
+def _scope_tables(sc):
+    """(extra flows, {use name: statement text}) of an open-scope overlay."""
+    flows = []
+    for i, m in enumerate(sc["members"]):
+        flows.append(_raw_flow(f"c11m{i}", [f"match Ev{m['ev']}()"] * m["waits"] + [f"send OutM{i}()"]))
+    names = [f"c11m{i}" for i in range(len(sc["members"]))]
+    alt = sc.get("alt")
+    if alt and alt[0] == "flow":
+        flows.append(_raw_flow("c11malt", [f"match Ev{alt[1]}()", "send OutMalt()"]))
+    alt_text = None if not alt else "c11malt" if alt[0] == "flow" else f"Ev{alt[1]}()"
+    group = " and ".join(names)
+    shape = sc["shape"]
+    if shape == "when-and":
+        text = [f"when {group}", "  send OutScA()"] + ([f"or when {alt_text}", "  send OutScB()"] if alt_text else [])
+    elif shape == "await-and":
+        text = [f"await {group}", "send OutScA()"]
+    elif shape == "await-or-and":
+        text = [f"await ({' and '.join(names[:-1])}) or {names[-1]}", "send OutScA()"]
+    else:
+        text = [f"when Ev{sc['pre']}()", f"  await {group}", "  send OutScA()", f"or when {alt_text or 'Ev3()'}", "  send OutScB()"]
+    text += ["send OutScEnd()"]
+    if sc.get("after") is not None:
+        text += [f"match Ev{sc['after']}()", "send OutScAfter()"]
+    return flows, {"scope-0": "\n".join(text)}
+
+
+@st.composite
+def _scope(draw, nflows):
+    """Overlay + the uses that place it in the generated program: (scope, uses)."""
+    ev = st.integers(0, co2.EVENTS - 1)
+    main = nflows - 1
+    shape = draw(st.sampled_from(SC_SHAPES))
+    nmem = draw(st.sampled_from([2, 2, 3])) if shape != "await-or-and" else 3
+    sc = {
+        "shape": shape,
+        "members": [{"ev": draw(ev), "waits": draw(st.sampled_from([0, 1, 1, 1, 2]))} for _ in range(nmem)],
+        "alt": draw(st.sampled_from([None, ["ev", 0], ["ev", 3], ["flow", 1], ["flow", 2], ["flow", 3]])),
+        "pre": draw(ev),
+        "after": draw(st.sampled_from([None, 0, 1, 2, 3])),
+    }
+    uses = [[draw(st.sampled_from([main, main, main] + list(range(nflows)))), draw(st.sampled_from([0, 0, 1, 2, 3, 5, 8])), "scope-0"]]
+    return sc, uses
+
+
+def _scope_cases():
+    """An and-group of two flows in an open scope, one member finishing before the other with every cut in between: every shape x
+    {no alternative, event, flow} x member orders x every cut x {age, every-age} (one in four also both)."""
+    n = 0
+    for shape in SC_SHAPES:
+        for alt in (None, ["ev", 3], ["flow", 3]):
+            members = [{"ev": 1, "waits": 1}, {"ev": 2, "waits": 1 + (n % 2)}] + ([{"ev": 3, "waits": 1}] if shape == "await-or-and" else [])
+            sc = {"shape": shape, "members": members, "alt": alt, "pre": 0, "after": 0}
+            prog = {"flows": [_raw_flow("main", ["match Never()"])]}
+            for hist in ([["ev", 0, None], ["ev", 1, None], ["ev", 0, None], ["ev", 2, None], ["ev", 2, None], ["ev", 3, None], ["ev", 0, None]], [["ev", 0, None], ["ev", 2, None], ["ev", 2, None], ["ev", 1, None], ["ev", 0, None]], [["ev", 0, None], ["ev", 1, None], ["ev", 3, None], ["ev", 2, None], ["ev", 0, None]]):
+                for mode in ("age", "every-age") + (("both",) if n % 4 == 0 else ()):
+                    yield {"prog": prog, "family": "open-scope/" + shape, "scope": sc, "hist": hist, "uses": [[0, 0, "scope-0"]], "cuts": list(range(1, len(hist))), "mode": mode, "choices": []}
+            n += 1
+
+
 def budget(tier):
     return 4000 if tier == "quick" else 40000
 
@@ -351,7 +557,7 @@ def _case(draw):
             uses.append([fi, draw(st.integers(0, 8)), draw(st.sampled_from(sorted(USES)))])
     cuts = draw(st.lists(st.integers(1, len(hist) - 1), min_size=1, max_size=3, unique=True))
     case = {"prog": prog, "hist": hist, "uses": uses, "cuts": sorted(cuts), "mode": draw(st.sampled_from(MODES)), "choices": draw(st.lists(st.integers(0, 3), max_size=3))}
-    extra = draw(st.sampled_from(["", "", "", "mdict", "mdict", "shared", "shared", "shared", "mdict+shared", "flowref", "flowref", "flowref", "flowref+shared"]))
+    extra = draw(st.sampled_from(["", "", "", "mdict", "mdict", "shared", "shared", "shared", "mdict+shared", "flowref", "flowref", "flowref", "flowref+shared", "nonfinite", "nonfinite", "scope", "scope", "nonfinite+scope"]))
     if "mdict" in extra:
         # a dict variable with keys of mixed kinds, looked up / sent / changed at drawn positions
         case["mdict"] = draw(_mdict())
@@ -369,6 +575,21 @@ def _case(draw):
         uses.extend(more)
         if draw(st.integers(0, 2)) > 0:
             case["mode"] = draw(st.sampled_from(["age", "age", "both", "every-age", "every-age"]))
+    if "nonfinite" in extra:
+        # a non-finite float (computed or received) kept in a drawn placement across the cuts; events of the history carry the value
+        case["nonfinite"], more, case["hist"] = draw(_nonfinite(len(prog["flows"]), hist))
+        uses.extend(more)
+        case["cuts"] = sorted(draw(st.lists(st.integers(1, len(case["hist"]) - 1), min_size=1, max_size=3, unique=True)))
+        if draw(st.integers(0, 2)) > 0:
+            case["mode"] = draw(st.sampled_from(["save", "save", "both", "every", "every-age"]))
+    if "scope" in extra:
+        # an and-group of flows in an open scope (when-case / await / inside a when-branch), members finishing at different times
+        case["scope"], more = draw(_scope(len(prog["flows"])))
+        uses.extend(more)
+        if draw(st.integers(0, 3)) > 0 and "nonfinite" not in extra:
+            case["mode"] = draw(st.sampled_from(["age", "age", "both", "every-age", "every-age"]))
+        elif "nonfinite" in extra:
+            case["mode"] = draw(st.sampled_from(["both", "every-age"]))
     return case
 
 
@@ -484,7 +705,13 @@ def _rt_rails():
 def _rt_case(draw):
     hist = draw(st.lists(st.one_of(st.sampled_from(RT_EVENTS), st.sampled_from(["Query", "Query", "Go"]), st.just("age")), min_size=3, max_size=14))
     cuts = sorted(draw(st.lists(st.integers(1, len(hist) - 1), min_size=1, max_size=2, unique=True)))
-    return {"leg": "runtime", "hist": hist, "cuts": cuts, "mode": draw(st.sampled_from(MODES))}
+    case = {"leg": "runtime", "hist": hist, "cuts": cuts, "mode": draw(st.sampled_from(MODES))}
+    nfv = draw(st.sampled_from([None, None, None, "inf", "-inf", "nan"]))
+    if nfv:
+        # every received event carries a non-finite float parameter: the runtime keeps the received events in the state (last_events),
+        # the watcher flow keeps the Ev0 event in a variable and sends its parameter
+        case["nfv"] = nfv
+    return case
 
 
 def _rt_run(case, cut, mode):
@@ -521,6 +748,8 @@ def _rt_run(case, cut, mode):
             ev = {"type": name}
             if name == "Ev0":
                 ev["v"] = i
+            if case.get("nfv"):
+                ev["v"] = NF_VALUES[case["nfv"]]
             try:
                 out, state = lp.run_until_complete(rails.runtime.process_events([ev], state=state, blocking=True))
             except Exception as e:
@@ -552,7 +781,7 @@ def _rt_prop(case):
                 "runtime-diverges-" + case["mode"],
                 f"cut before event #{cut} ({case['mode']}): live continuation emits {a[k] if k < len(a) else 'nothing more'} where the restored/aged one emits {b[k] if k < len(b) else 'nothing more'}; history {case['hist']} (program: vf.props.c11.RT_PROGRAM through RuntimeV2_x.process_events)",
             )
-    labels = ["runtime-leg", "mode-" + case["mode"]] + (["dynamic-flows"] if dyn else [])
+    labels = ["runtime-leg", "mode-" + case["mode"]] + (["dynamic-flows"] if dyn else []) + (["runtime-events-with-non-finite-float", "nonfinite-" + case["nfv"]] if case.get("nfv") else [])
     return ok(nt=len(case["hist"]) >= 4, labels=labels, view={"program": "RT_PROGRAM", "history": case["hist"], "cuts": case["cuts"], "mode": case["mode"]}, counters={"cut_points_compared": compared})
 
 
@@ -628,6 +857,8 @@ def _rails_prop(case):
 def enumerate_cases(tier):
     # small fixed programs x every cut x every mode: one per rich feature
     base_hist = [["ev", 0, None], ["ev", 1, 1], ["finished", 0], ["ev", 2, 1], ["ev", 0, None], ["ev", 1, None], ["ev", 3, None]]
+    yield from _nonfinite_cases()
+    yield from _scope_cases()
     for use in sorted(USES):
         prog = {
             "flows": [
@@ -758,6 +989,11 @@ def _runtime_cases():
             continue
         for mode in ("age", "save"):
             yield {"leg": "runtime", "hist": list(h), "cuts": [1, 2], "mode": mode}
+    # received events with a non-finite float parameter (kept in the state's event history; Ev0's is kept and sent by the watcher flow)
+    for nfv in sorted(NF_VALUES):
+        for h in (["Ev0", "Query", "Go"], ["Query", "Ev0", "Ev0", "Query"], ["Go", "Second", "Query"]):
+            for mode in ("save", "every-age"):
+                yield {"leg": "runtime", "hist": h, "cuts": list(range(1, len(h))), "mode": mode, "nfv": nfv}
 
 
 def _activation_cases():
@@ -858,7 +1094,7 @@ def build(case):
         case = dict(case, uses=[[u[0] + 1, u[1], u[2]] for u in case["uses"]])
     uses_tab = USES
     mixed_pro = []
-    if case.get("mdict") or case.get("shared") or case.get("flowref"):
+    if case.get("mdict") or case.get("shared") or case.get("flowref") or case.get("nonfinite") or case.get("scope"):
         uses_tab = dict(USES)
         if case.get("mdict"):
             mixed_pro, tab = _mixed_tables(case["mdict"])
@@ -876,6 +1112,12 @@ def build(case):
             uses_tab.update({k: (None, v) for k, v in tab.items()})
             prog["flows"] = extra_flows + prog["flows"]
             case = dict(case, uses=[[u[0] + len(extra_flows), u[1], u[2]] for u in case["uses"]])
+        for key, tables in (("nonfinite", _nf_tables), ("scope", _scope_tables)):
+            if case.get(key):
+                extra_flows, tab = tables(case[key])
+                uses_tab.update({k: (None, v) for k, v in tab.items()})
+                prog["flows"] = extra_flows + prog["flows"]
+                case = dict(case, uses=[[u[0] + len(extra_flows), u[1], u[2]] for u in case["uses"]])
     needed = sorted({uses_tab[u[2]][0] for u in case["uses"]} - {None})
     by_flow = {}
     for fi, pos, use in case["uses"]:
@@ -929,6 +1171,17 @@ def _run(text, case, cut, mode):
                 )
                 # references (variables of running flows, directly or as the flow of a kept flow event) to flow instances that have ended
                 info["held_ended_flows"] = sum(1 for fs in st_.flow_states.values() if smh.sm().is_active_flow(fs) for v in fs.context.values() if _ended_flow_ref(v))
+                # non-finite floats reachable from the variables of running flows or from the started actions
+                info["nonfinite_live"] = sum(1 for fs in st_.flow_states.values() if smh.sm().is_active_flow(fs) for v in fs.context.values() if _nf_inside(v)) + sum(1 for a in st_.actions.values() if _nf_inside(a))
+                # open scopes of running flows that list a flow instance which has ended (or has been discarded already)
+                info["scope_ended_members"] = sum(
+                    1
+                    for fs in st_.flow_states.values()
+                    if smh.sm().is_active_flow(fs)
+                    for flow_uids, _ in fs.scopes.values()
+                    for uid in flow_uids
+                    if uid not in st_.flow_states or st_.flow_states[uid].status.value in ("finished", "stopped")
+                )
                 info["ref_vars"] = sum(1 for fs in st_.flow_states.values() if smh.sm().is_active_flow(fs) for v in fs.context.values() if not isinstance(v, (str, int, float, bool, type(None))))
             if mode in ("save", "both", "every", "every-age"):
                 from nemoguardrails.colang.v2_x.runtime.serialization import json_to_state, state_to_json
@@ -952,7 +1205,7 @@ def _run(text, case, cut, mode):
             if mode in ("age", "both", "every-age"):
                 smh.Clock.virtual += 6.0
         try:
-            out = s.feed(item)
+            out = s.feed(_nf_item(item))
         except Exception as e:
             if mode is None:
                 raise  # the live run itself failed: not this property's business (generator problem)
@@ -982,7 +1235,7 @@ def _canon_steps(steps):
             d = dict(e)
             d["__step"] = k
             flat.append(d)
-    return smh.canon(_nouuid(flat, {}))
+    return _nf_canon(smh.canon(_nouuid(flat, {})))
 
 
 _UUID = re.compile(r"[0-9a-f]{8}-[0-9a-f]{4}-[0-9a-f]{4}-[0-9a-f]{4}-[0-9a-f]{12}")
@@ -1030,6 +1283,13 @@ def prop(case):
         for u in case["flowref"]["uses"]:
             labels += ["flowref-via-" + u["via"], "flowref-tail-" + u["tail"], "flowref-how-" + u["how"], f"flowref-waits-{len(u['gap'])}"] + ["flowref-read-" + m for m in u["read"]]
         labels = sorted(set(labels), key=labels.index)
+    if case.get("nonfinite"):
+        nf = case["nonfinite"]
+        labels += ["non-finite", "nonfinite-" + nf["val"], "nonfinite-src-" + nf["src"], "nonfinite-at-" + (nf["at"] if nf["src"] == "event" or nf["at"] != "event-ref" else "var"), "nonfinite-how-" + nf["how"]]
+    if case.get("scope"):
+        sc = case["scope"]
+        labels += ["open-scope", "scope-" + sc["shape"], "scope-alt-" + (sc["alt"][0] if sc.get("alt") else "none"), f"scope-members-{len(sc['members'])}"]
+    nf_live = scope_ended = False
     ended_under = False
     held_ended = read_after = False
     nt = False
@@ -1056,6 +1316,10 @@ def prop(case):
             nt = True
         if case["mode"] in ("age", "both", "every-age") and info.get("done_instances", 0) >= 1:
             nt = True
+        if case["mode"] in ("save", "both", "every", "every-age") and info.get("nonfinite_live", 0) >= 1:
+            nt = True
+        nf_live = nf_live or info.get("nonfinite_live", 0) >= 1
+        scope_ended = scope_ended or info.get("scope_ended_members", 0) >= 1
         ended_under = ended_under or info.get("ended_under_activator", 0) >= 1
         if info.get("held_ended_flows", 0) >= 1:
             held_ended = True
@@ -1064,6 +1328,10 @@ def prop(case):
         labels.append("rich-vars")
     if ended_under:
         labels.append("cut-with-ended-helper-under-running-activator")
+    if nf_live:
+        labels.append("cut-with-non-finite-float-in-variable-or-action")
+    if scope_ended:
+        labels.append("cut-with-ended-flow-in-open-scope")
     if held_ended:
         labels.append("cut-with-reference-to-ended-flow")
     if read_after:
